@@ -41,7 +41,11 @@ fn world(v: &Value) -> World {
     let mut serial = 0;
     let mut commit = |a: u64, b: u64, u: u64| -> String {
         std::fs::write(dir.join(&p0), format!("{a}\n")).unwrap();
-        std::fs::write(dir.join("b"), format!("{b}\n")).unwrap();
+        if b == u64::MAX {
+            let _ = std::fs::remove_file(dir.join("b"));
+        } else {
+            std::fs::write(dir.join("b"), format!("{b}\n")).unwrap();
+        }
         std::fs::write(dir.join("untracked"), format!("{u}\n")).unwrap();
         serial += 1;
         std::fs::write(dir.join("serial"), format!("{serial}\n")).unwrap();
@@ -52,7 +56,11 @@ fn world(v: &Value) -> World {
     for i in 0..n {
         let d = v["diffs"][i].as_u64().unwrap_or(0);
         orig.push(commit(0, 0, 0));
-        new.push(commit(d & 1, (d >> 1) & 1, 1));
+        if d == 4 {
+            new.push(commit(0, u64::MAX, 1));
+        } else {
+            new.push(commit(d & 1, (d >> 1) & 1, 1));
+        }
     }
     World { dir, orig, new, p0 }
 }
